@@ -230,6 +230,40 @@ def _add_logging(src):
     return out
 
 
+def _keywordise_factory(root):
+    """Calls of repository functions: every positional argument after the first becomes a keyword
+    argument (when all definitions of the callee's name agree on the parameter list)."""
+    import ast as _ast
+    sigs = {}
+    for rel, m in Tree(root).modules.items():
+        for q, f in m.funcs.items():
+            ps = [a.arg for a in f.args.posonlyargs + f.args.args]
+            is_method = "." in q and ps and ps[0] in ("self", "cls")
+            sigs.setdefault(f.name, set()).add((tuple(ps[1:] if is_method else ps), bool(is_method), bool(f.args.posonlyargs or f.args.vararg)))
+
+    def xf(src):
+        t = _ast.parse(src)
+        for c in _ast.walk(t):
+            if not isinstance(c, _ast.Call) or any(isinstance(a, _ast.Starred) for a in c.args):
+                continue
+            nm = c.func.attr if isinstance(c.func, _ast.Attribute) else (c.func.id if isinstance(c.func, _ast.Name) else None)
+            ss = sigs.get(nm)
+            if not ss or len(ss) != 1 or nm.startswith("__"):
+                continue
+            ps, is_method, special = next(iter(ss))
+            if special or is_method != isinstance(c.func, _ast.Attribute) or len(c.args) < 2 or len(c.args) > len(ps):
+                continue
+            new_kw = [_ast.keyword(arg=ps[i], value=a) for i, a in enumerate(c.args) if i >= 1]
+            c.keywords = new_kw + c.keywords
+            c.args = c.args[:1]
+        _ast.fix_missing_locations(t)
+        out = _ast.unparse(t) + "\n"
+        compile(out, "<keywords>", "exec")
+        return out
+
+    return xf
+
+
 def run_xform(args):
     prop, root, base_sig, name, fn = args
     base = Tree(root)
@@ -256,7 +290,8 @@ def run_variants(prop, root, base_keys, only_controls):
         base_sig = {tuple(k.split(" :: ")[:3]) for k in base_keys}
         extra = [run_reformat((prop, root, base_keys)), run_rename((prop, root, base_sig)), run_flip((prop, root, base_sig)),
                  run_xform((prop, root, base_sig, "whole-tree-invert-ifs", _invert_ifs)),
-                 run_xform((prop, root, base_sig, "whole-tree-add-logging", _add_logging))]
+                 run_xform((prop, root, base_sig, "whole-tree-add-logging", _add_logging)),
+                 run_xform((prop, root, base_sig, "whole-tree-keyword-arguments", _keywordise_factory(root)))]
     else:
         extra = []
     return extra + _run_variant_jobs(jobs)
